@@ -54,6 +54,8 @@ type monitor struct {
 
 	// C11: evidence hashes committed so far
 	evCommitted map[string]int64
+	auditAt     map[int]int64
+	assembled   map[string]bool
 }
 
 type c05state struct {
@@ -69,7 +71,7 @@ type c05state struct {
 func newMonitor(s *sim) *monitor {
 	return &monitor{s: s, decided: map[int64][]byte{}, decidedBy: map[int64]int{}, audited: map[int]int64{}, signs: map[int][]signRec{}, c05: map[int]*c05state{}, invalid: map[string]string{},
 		recv: map[int]map[string]map[string]bool{}, vals: map[int64]*types.ValidatorSet{}, signSeen: map[int]int{},
-		stateBytes: map[int64][]byte{}, stateFrom: map[int64]int{}, stateSeen: map[int]int64{}, evCommitted: map[string]int64{}}
+		stateBytes: map[int64][]byte{}, stateFrom: map[int64]int{}, stateSeen: map[int]int64{}, evCommitted: map[string]int64{}, auditAt: map[int]int64{}, assembled: map[string]bool{}}
 }
 
 func (m *monitor) onCrash(n *simNode, ci *crashInfo) {}
@@ -344,6 +346,11 @@ func (m *monitor) afterStep() {
 				m.vals[rs.Height] = rs.Validators.Copy()
 			}
 			m.checkReplica(n)
+			m.checkAssembled(n, rs)
+			if e.Checking("C18") && (m.auditAt[n.idx] != bh*1000+int64(n.inc)) {
+				m.auditAt[n.idx] = bh*1000 + int64(n.inc)
+				m.auditStores(n, "live")
+			}
 			e.State(n.idx, rs.Height-s.genDoc.InitialHeight, rs.Round, rs.Step, rs.LockedRound >= 0, rs.ValidRound >= 0, n.inc > 0)
 		}
 		if f := n.failureMsg(); f != "" && (e.Checking("C03") || e.Checking("C05")) {
@@ -567,4 +574,80 @@ func (m *monitor) checkDecidedBlock(n *simNode, h int64, meta *types.BlockMeta) 
 			e.Count("probe.evidence_committed")
 		}
 	}
+}
+
+// auditStores is the C18 audit: everything between the block store's base and height can
+// be loaded and agrees with itself, and the state store can produce the validator set and
+// consensus parameters of every height in that range (and of the next height).
+func (m *monitor) auditStores(n *simNode, ctx string) {
+	e := m.s.env
+	bs, ss := n.bstore, n.sstore
+	base, height := bs.Base(), bs.Height()
+	if height == 0 {
+		return
+	}
+	if base <= 0 || base > height {
+		e.Fail("C18", "bad-range", "%s: node %d block store reports base %d height %d", ctx, n.idx, base, height)
+	}
+	for h := base; h <= height; h++ {
+		meta := bs.LoadBlockMeta(h)
+		if meta == nil {
+			e.Fail("C18", "meta-missing", "%s: node %d: no block meta at height %d (base %d, height %d)", ctx, n.idx, h, base, height)
+		}
+		blk := bs.LoadBlock(h)
+		if blk == nil {
+			e.Fail("C18", "block-missing", "%s: node %d: block %d cannot be loaded (base %d, height %d)", ctx, n.idx, h, base, height)
+		}
+		if !bytes.Equal(blk.Hash(), meta.BlockID.Hash) {
+			e.Fail("C18", "block-hash-mismatch", "%s: node %d: block %d hashes to %X, its meta says %X", ctx, n.idx, h, blk.Hash(), meta.BlockID.Hash)
+		}
+		for i := 0; i < int(meta.BlockID.PartSetHeader.Total); i++ {
+			if bs.LoadBlockPart(h, i) == nil {
+				e.Fail("C18", "part-missing", "%s: node %d: part %d of block %d missing", ctx, n.idx, i, h)
+			}
+		}
+		if byHash := bs.LoadBlockByHash(meta.BlockID.Hash); byHash == nil || byHash.Height != h {
+			e.Fail("C18", "hash-index-missing", "%s: node %d: block %d cannot be found by its hash", ctx, n.idx, h)
+		}
+		var commit *types.Commit
+		if h == height {
+			commit = bs.LoadSeenCommit(h)
+		} else {
+			commit = bs.LoadBlockCommit(h)
+		}
+		if commit == nil {
+			e.Fail("C18", "commit-missing", "%s: node %d: no commit for block %d (tip %d)", ctx, n.idx, h, height)
+		}
+		if commit.Height != h || !commit.BlockID.Equals(meta.BlockID) {
+			e.Fail("C18", "commit-mismatch", "%s: node %d: commit stored for block %d is for %v at height %d", ctx, n.idx, h, commit.BlockID, commit.Height)
+		}
+		vals, err := ss.LoadValidators(h)
+		if err != nil {
+			e.Fail("C18", "validators-missing", "%s: node %d: validator set of retained height %d unavailable: %v", ctx, n.idx, h, err)
+		}
+		if !bytes.Equal(vals.Hash(), blk.ValidatorsHash) {
+			e.Fail("C18", "validators-wrong", "%s: node %d: validator set loaded for height %d does not hash to the block's validators hash", ctx, n.idx, h)
+		}
+		params, err := ss.LoadConsensusParams(h)
+		if err != nil {
+			e.Fail("C18", "params-missing", "%s: node %d: consensus params of retained height %d unavailable: %v", ctx, n.idx, h, err)
+		}
+		if !bytes.Equal(types.HashConsensusParams(params), blk.ConsensusHash) {
+			e.Fail("C18", "params-wrong", "%s: node %d: consensus params loaded for height %d do not hash to the block's consensus hash", ctx, n.idx, h)
+		}
+	}
+	// the state store may be one block behind the block store only while a commit is in
+	// flight; at quiescence of a live node it has caught up, and the next height's set exists
+	if st, err := ss.Load(); err == nil && st.LastBlockHeight == height {
+		if _, err := ss.LoadValidators(height + 1); err != nil {
+			e.Fail("C18", "validators-missing", "%s: node %d: validator set of the next height %d unavailable: %v", ctx, n.idx, height+1, err)
+		}
+	}
+	if base > 1 {
+		e.Count("probe.audit_pruned_store")
+		if bs.LoadBlock(base-1) != nil || bs.LoadBlockMeta(base-1) != nil {
+			e.Fail("C18", "pruned-still-loadable", "%s: node %d: block %d is below the base %d but still loadable", ctx, n.idx, base-1, base)
+		}
+	}
+	e.Count("probe.store_audit")
 }
